@@ -4,6 +4,7 @@ Property statements only; proofs of the helper lemmas are in `Lemmas/Include.lea
 Model: `Model/Include.lean` (mirrors `src/mechfs.rs`), spec: `Spec/Include.lean`.
 -/
 import MechVerif.Lemmas.Include
+import MechVerif.Lemmas.IncludeHelpers
 namespace MechVerif.Include
 
 /-- Loading always terminates with a result that is not "out of fuel": the fuel the
@@ -117,5 +118,103 @@ example : isCircular (load exCycle "a.mec".toList) = true := by decide
 example : Reach exCycle ["a.mec".toList] ["a.mec".toList] :=
   .trans (m := ["b.mec".toList]) (show _ ∈ targets _ _ by decide) (.step (show _ ∈ targets _ _ by decide))
 example : noIncludeLines exCycle [] none (splitLines "x\n```\n{a.mec}\n```\n".toList) = true := by decide
+
+/-! ### the line-level helpers as written
+
+`Gen/IncludeHelpers.lean` is regenerated from `src/mechfs.rs` by `tools/extract_include.py` on every run: the four
+helpers of the include expander as Lean definitions over `Model/IncludeIR.lean` (indexing, slicing and `usize`
+subtraction can panic).  Each of them computes the model's function for every line and never panics. -/
+section AsWritten
+open MechVerif.IncludeIR MechVerif.Gen.IncludeHelpers
+
+/-- `code_fence_delimiter` of the source = `codeFenceDelimiter` of the model: up to three leading spaces, a run of at
+    least three backticks or tildes; (marker, run length, position after the run). -/
+theorem C20_code_fence_delimiter_as_written (line : Text) :
+    code_fence_delimiter line = .ok (codeFenceDelimiter line) :=
+  code_fence_delimiter_eq line
+
+/-- `is_code_fence_close` of the source = `isFenceClose` of the model: same marker, at least the opening length,
+    nothing but blanks, tabs, `\r`, `\n` after the run. -/
+theorem C20_is_code_fence_close_as_written (line : Text) (marker : Char) (minLen : Nat) :
+    is_code_fence_close line marker minLen = .ok (isFenceClose line marker minLen) :=
+  is_code_fence_close_eq line marker minLen
+
+/-- `standalone_braced_content` of the source: the trimmed line starts with `{` and ends with `}` (then it has at least
+    two characters and the slice does not panic); returns what is between. -/
+theorem C20_standalone_braced_content_as_written (l : Text) :
+    standalone_braced_content l = .ok (standaloneBraced l) :=
+  standalone_braced_content_eq l
+
+/-- `looks_like_mech_include` of the source: the trimmed text ends in `.mec`. -/
+theorem C20_looks_like_mech_include_as_written (c : Text) :
+    looks_like_mech_include c = .ok (endsWith (trimWs c) ".mec".toList) :=
+  looks_like_mech_include_eq c
+
+/-- the two brace helpers composed as `expand_mechdown_include_tokens` composes them = `includeTarget` of the model. -/
+theorem C20_include_target_as_written (body : Text) :
+    includeTargetOf standalone_braced_content looks_like_mech_include body = .ok (includeTarget body) :=
+  includeTarget_eq body
+
+/-- consequences for the functions as written, on the cases that were seeded changes in this project: a closing fence
+    may be longer than the opening one but not shorter; three leading spaces are a fence, four are not; a `\r` after
+    the closing run is allowed; text after it is not. -/
+theorem C20_fence_cases_as_written :
+    is_code_fence_close "`````\n".toList '`' 3 = .ok true ∧
+    is_code_fence_close "```\n".toList '`' 4 = .ok false ∧
+    is_code_fence_close "```\r\n".toList '`' 3 = .ok true ∧
+    is_code_fence_close "``` x\n".toList '`' 3 = .ok false ∧
+    is_code_fence_close "~~~\n".toList '`' 3 = .ok false ∧
+    code_fence_delimiter "   ```mech\n".toList = .ok (some ('`', 3, 6)) ∧
+    code_fence_delimiter "    ```\n".toList = .ok none ∧
+    code_fence_delimiter "``\n".toList = .ok none := by
+  simp only [C20_is_code_fence_close_as_written, C20_code_fence_delimiter_as_written, Except.ok.injEq]
+  decide
+
+/-! #### the `active_set` discipline of the two `expand_*` functions as written
+
+`recursive_skeleton` / `tokens_skeleton` (generated) are the bodies of `expand_mechdown_includes_recursive` and
+`expand_mechdown_include_tokens` reduced to the events on `active_set` and the exits; `Exec` (Model/IncludeIR.lean) runs
+a skeleton without interpreting conditions, the callees keeping the contract proved here for the other function. -/
+
+/-- `expand_mechdown_includes_recursive` as written, entered with `active_set = a`: it never falls off its end, every
+    `Ok` return hands the set back as `a` (every exit after the insert that is not an error removes the file again),
+    and `expand_mechdown_include_tokens` is only ever called with the set `p :: a` — which is the model's
+    `expandFile fs n (p :: active)` for the children and `active` again for the siblings (the stack discipline behind
+    `C20_diamond_ok`).  Errors are not caught anywhere: they are `?`-propagated to `expand_mechdown_includes`, whose set
+    is dropped. -/
+theorem C20_recursive_restores_active_set (p : Path) (a : List Path) (k : Exit) (s' : List Path)
+    (log : List (List Path)) (h : Exec p recursive_skeleton a k s' log) :
+    k ≠ .normal ∧ k ≠ .cont ∧ (k = .retOk → s' = a) ∧ (∀ x ∈ log, x = p :: a) :=
+  discipline_sound p a recursive_skeleton C20_active_set_discipline_as_written.1 h
+
+/-- `expand_mechdown_include_tokens` as written: every `Ok` return leaves the set as it was (the contract
+    `Exec.tokens_ok` assumes), and it never calls itself. -/
+theorem C20_tokens_restores_active_set (p : Path) (a : List Path) (k : Exit) (s' : List Path)
+    (log : List (List Path)) (h : Exec p tokens_skeleton a k s' log) :
+    k ≠ .normal ∧ k ≠ .cont ∧ (k = .retOk → s' = a) ∧ log = [] := by
+  have := discipline_sound p a tokens_skeleton C20_active_set_discipline_as_written.2 h
+  exact ⟨this.1, this.2.1, this.2.2.1, noTokensCalls_log p (sk := tokens_skeleton) (by decide) h⟩
+
+/-- the check has teeth: an early `return Ok(…)` between the insert and the remove is rejected, and such a body really
+    can return with the file still in the set (the seeded change that made diamonds "circular"). -/
+theorem C20_discipline_rejects_early_return (p : Path) (a : List Path) (hp : p ∉ a) :
+    let bad : Skel := .seq (.ev .guardActive) (.seq (.ev .insert)
+      (.seq (.branch (.ev .returnOk) .skip) (.seq (.ev .remove) (.ev .returnOk))))
+    disciplineOk bad = false ∧ Exec p bad a .retOk (p :: a) [] := by
+  refine ⟨by decide, ?_⟩
+  exact Exec.seq_normal _ _ _ _ _ _ [] [] (Exec.guard_out a hp)
+    (Exec.seq_normal _ _ _ _ _ _ [] [] (Exec.insert a)
+      (Exec.seq_abrupt _ _ _ _ _ _ (Exec.branch_then _ _ _ _ _ _ (Exec.returnOk _)) (by decide)))
+
+/-- … and so are a missing guard, a missing remove, an insert after the expansion, and a call whose error is caught. -/
+theorem C20_discipline_rejects_other_changes :
+    disciplineOk (.seq (.ev .insert) (.seq (.ev .callTokens) (.seq (.ev .remove) (.ev .returnOk)))) = false ∧
+    disciplineOk (.seq (.ev .guardActive) (.seq (.ev .insert) (.seq (.ev .callTokens) (.ev .returnOk)))) = false ∧
+    disciplineOk (.seq (.ev .guardActive) (.seq (.ev .callTokens) (.seq (.ev .insert) (.seq (.ev .remove) (.ev .returnOk))))) = false ∧
+    disciplineOk (.seq (.ev .guardActive) (.seq (.ev .insert) (.seq (.ev .foreign) (.seq (.ev .remove) (.ev .returnOk))))) = false ∧
+    disciplineOk (.seq (.ev .guardActive) (.seq (.ev .insert) (.seq (.loop (.branch (.ev .remove) .skip)) (.seq (.ev .remove) (.ev .returnOk))))) = false := by
+  decide
+
+end AsWritten
 
 end MechVerif.Include
